@@ -127,6 +127,13 @@ func CanDescend(v any) bool {
 // StructToMap converts a struct to a map using JSON tags for keys.
 // Nested structs are recursively converted to maps as well.
 func StructToMap(data any) map[string]any {
+	return structToMap(data, map[uintptr]bool{})
+}
+
+// structToMap converts a struct to a map. The visiting set holds the pointers on the
+// current conversion path, so that cyclic data (a struct pointing back to itself)
+// ends the recursion with an empty map instead of recursing without end.
+func structToMap(data any, visiting map[uintptr]bool) map[string]any {
 	result := make(map[string]any)
 	if data == nil {
 		return result
@@ -138,6 +145,12 @@ func StructToMap(data any) map[string]any {
 		if rv.IsNil() {
 			return result
 		}
+		ptr := rv.Pointer()
+		if visiting[ptr] {
+			return result
+		}
+		visiting[ptr] = true
+		defer delete(visiting, ptr)
 		rv = rv.Elem()
 	}
 
@@ -168,7 +181,7 @@ func StructToMap(data any) map[string]any {
 
 		// Recursively convert nested structs
 		if fv.Kind() == reflect.Struct || (fv.Kind() == reflect.Ptr && fv.Type().Elem().Kind() == reflect.Struct) {
-			fieldValue = StructToMap(fieldValue)
+			fieldValue = structToMap(fieldValue, visiting)
 		}
 
 		result[tagName] = fieldValue
